@@ -8,7 +8,7 @@ from hypothesis import strategies as st
 
 from pv import gen, codec
 from pv.core import Sub, Fail, exc_fail
-from pv.probes import Failing, Boom
+from pv.probes import Failing, Boom, BOOMS, BOOM_KINDS
 
 ID = "C18"
 LEVEL = "exploration"
@@ -63,7 +63,8 @@ def case(draw, tier):
     c = {"kind": kind, "n": n, "buffersize": bs, "cache": draw(st.booleans()),
          "fail_at": draw(st.one_of(st.none(), st.none(), st.none(), st.integers(0, n + 1), st.integers(max(0, n - 1), n + 1))),
          # alternatively data row i carries a cell that cannot be written to a chunk file (the spill itself fails there)
-         "unpicklable_at": draw(st.one_of(st.none(), st.none(), st.none(), st.integers(0, max(0, n - 1))))}
+         "unpicklable_at": draw(st.one_of(st.none(), st.none(), st.none(), st.integers(0, max(0, n - 1)))),
+         "fail_kind": draw(st.sampled_from(BOOM_KINDS))}
     if c["fail_at"] is not None or kind == "fromdicts":
         c["unpicklable_at"] = None
     nsteps = draw(gen.sizes(2, 20))
@@ -108,14 +109,14 @@ def _build(kind, src, td, bs, cache):
     raise KeyError(kind)
 
 
-def _gen_dicts(rows, fail_at):
+def _gen_dicts(rows, fail_at, fail_kind="plain"):
     hdr = rows[0]
     for i, r in enumerate(rows[1:], 1):
         if fail_at is not None and i == fail_at:
-            raise Boom(i)
+            raise BOOMS[fail_kind](i)
         yield dict(zip(hdr, r))
     if fail_at is not None and fail_at == len(rows):
-        raise Boom(fail_at)
+        raise BOOMS[fail_kind](fail_at)
 
 
 def check(case, ctx):
@@ -147,9 +148,9 @@ def check(case, ctx):
         tempfile.tempdir = td
         try:
             if kind == "fromdicts":
-                st_["view"] = etl.fromdicts(_gen_dicts(rows, fail_at), header=["k", "v"])
+                st_["view"] = etl.fromdicts(_gen_dicts(rows, fail_at, case.get("fail_kind", "plain")), header=["k", "v"])
             else:
-                src = Failing(codec.snapshot(rows), fail_at) if fail_at is not None else codec.snapshot(rows)
+                src = Failing(codec.snapshot(rows), fail_at, case.get("fail_kind", "plain")) if fail_at is not None else codec.snapshot(rows)
                 st_["view"] = _build(kind, src, td, bs, cache)
         except Exception as ex:
             return exc_fail(kind + "/construct", ex)
